@@ -155,6 +155,17 @@ def readTx (payload : Bytes) : Option (ATx × WfReport × Item) := do
       | none => some 0)
     let w ← wits.asMap?
     let redeemers ← (match lookupInt w 5 with | some x => readRedeemers x | none => some [])
+    let scriptsOf (k : Int) : Option (List Bytes) :=
+      match lookupInt w k with
+      | some x => do let xs ← x.asSet?; xs.mapM (·.asBytes?)
+      | none => some []
+    let v1 ← scriptsOf 3
+    let v2 ← scriptsOf 6
+    let v3 ← scriptsOf 7
+    let plutus := ([(1, v1), (2, v2), (3, v3)] : List (Nat × List Bytes)).filter fun x => !x.2.isEmpty
+    let native ← (match lookupInt w 1 with
+      | some x => do let xs ← x.asSet?; some xs.length
+      | none => some 0)
     let metadata ← (match aux with
       | .simple 22 => some []
       | .tag 259 m => do
@@ -191,7 +202,8 @@ def readTx (payload : Bytes) : Option (ATx × WfReport × Item) := do
       inputs, outputs := outs.map (·.1), fee, ttl, validityStart := start, mint, withdrawals := wds,
       collateral := coll, requiredSigners := signers, referenceInputs := refs, networkId := net,
       donation, certs, hasScriptDataHash := (lookupInt b 11).isSome,
-      hasAuxDataHash := (lookupInt b 7).isSome, metadata, redeemers }
+      hasAuxDataHash := (lookupInt b 7).isSome, metadata, redeemers, plutusScripts := plutus,
+      nativeScripts := native }
     pure (atx, rep, body)
   | _ => none
 
